@@ -194,7 +194,7 @@ def parse_kv(line):
     return d
 
 
-def codec_corr(pipe, res, nper, modes, want_dec=True, classes=None, big=False, wide=False):
+def codec_corr(pipe, res, nper, modes, want_dec=True, classes=None, big=False, wide=False, suspects=()):
     """run enc/dec requests through the Lean driver and the real library; diff.
     -> (requests, model answers, impl answers)"""
     import codecgen
@@ -217,6 +217,10 @@ def codec_corr(pipe, res, nper, modes, want_dec=True, classes=None, big=False, w
         for mode in modes:
             for _ in range(nper):
                 reqs.append(g.line(n, g.obj(n, mode, big=big)))
+        if n in suspects:
+            # an obligation about this class broke on this run: search it much harder (the search for a failing input)
+            for _ in range(200):
+                reqs.append(g.line(n, g.obj(n, rng.choice(list(modes) + ['random']))))
         if wide:
             # one payload just above 64 KiB per container member: beyond what a 16-bit length field can say (finding 27)
             for i, f in enumerate(g.cls[n]['fields']):
@@ -500,6 +504,18 @@ def coverage_obligations(pipe, res, summary, regres):
     return exact
 
 
+def suspect_classes(summary, regres):
+    """classes for which an obligation broke on this run: left the translator's grammar, left the exact fragment, or new.
+    The search for a failing input concentrates on them."""
+    base = load_baseline()
+    names = [c['name'] for c in summary['classes']]
+    exact = set(n for n, v in (regres or {}).items() if v)
+    sus = [n for n in names if n in (summary.get('untranslated') or {})]
+    sus += [n for n in base['exact'] if n in names and n not in exact]
+    sus += [n for n in names if n not in base['exact'] and n not in base['unproved']]
+    return sorted(set(sus))
+
+
 def check_C03(res):
     pipe = Pipe(res)
     tr = pipe.regenerate()
@@ -526,7 +542,9 @@ def check_C03(res):
     else:
         res.oblige('S:pad-table-rederived', False, p.stdout[-500:])
     nper = 3 if res.tier == 'quick' else 25
-    reqs, mod, imp = codec_corr(pipe, res, nper, ['payload', 'random'], want_dec=True, big=(res.tier == 'thorough'), wide=True)
+    sus = suspect_classes(summary, regres)
+    res.corr['suspect_classes'] = sus
+    reqs, mod, imp = codec_corr(pipe, res, nper, ['payload', 'random'], want_dec=True, big=(res.tier == 'thorough'), wide=True, suspects=sus)
     res.corr['programs'] = len(summary['classes'])
     if imp:
         dis = compare_codec(res, reqs, mod, imp, summary)
@@ -959,6 +977,16 @@ def file_determinism(res, pipe, summary, rng):
                 objs.append((cn, a))
         rng.shuffle(objs)
         cases.append(fc.Case(rng.choice([0, 1]), rng.choice([16, 33, 64]), k % 2 == 0, objs))
+    # streams that end exactly on a container boundary (whether a trailing empty container is cut must not depend on the schedule)
+    fixed = [c['name'] for c in summary['classes'] if c['name'] in creatable(summary) and c.get('layout')
+             and not any(f['kind'][0] == 'vec' for f in c['fields']) and not any(it[0] == 'pad' for it in c['layout']['items'])]
+    probe = [fc.Case(0, 131072, False, [(cn, {})]) for cn in rng.sample(fixed, min(len(fixed), 2 if res.tier == 'quick' else 6))]
+    pout = fc.run_cases(pipe, res, probe, fexe, cexe, want_model=False) if probe else []
+    for pc, po in zip(probe, pout or []):
+        sz = len(po['stream'])
+        if sz > 0:
+            for nobj, mult in ((2, 1), (4, 2), (6, 3)):
+                cases.append(fc.Case(rng.choice([0, 1]), sz * mult, nobj % 4 == 0, [(pc.objs[0][0], {}) for _ in range(nobj)]))
     out = fc.run_cases(pipe, res, cases, fexe, cexe, want_model=False)
     if out is None:
         return
@@ -1359,7 +1387,9 @@ def check_C01(res):
     rng = random.Random(lib.seed() * 2741 + 1)
     classes = creatable(summary)
     ncases = 3 * len(classes) if res.tier == 'quick' else 40 * len(classes)
-    cases = fc.gen_cases(summary, rng, res.tier, classes, [c for c in exact if c in classes], ncases)
+    sus = suspect_classes(summary, regres)
+    res.corr['suspect_classes'] = sus
+    cases = fc.gen_cases(summary, rng, res.tier, classes, [c for c in exact if c in classes], ncases, suspects=sus)
     out = fc.run_cases(pipe, res, cases, fexe, cexe)
     if out is None:
         return finish_codec(res)
@@ -1469,6 +1499,10 @@ def file_setup(res, prop, theorems):
     res.checker_cmd = 'cd lean && lake build Blf.Props.%s && lake env lean <#print axioms>' % prop
     pipe.lean(['Blf.Props.' + prop, 'blfdriver'], {'Blf.Props.' + prop: theorems})
     exact = sorted(coverage_obligations(pipe, res, summary, regres))
+    if not regres:
+        # no executable model of this tree: the oracles still need to know which classes to draw objects from
+        names = set(c['name'] for c in summary['classes'])
+        exact = sorted(n for n in load_baseline()['exact'] if n in names and n not in (summary.get('untranslated') or {}))
     fexe, cexe = fc.build_file_harness(pipe, res)
     if not fexe or not cexe:
         finish_codec(res)
@@ -1936,11 +1970,13 @@ def check_C10(res):
         d, st, objs = fc.split_read(a)
         oc = d.get('outcome', a.split()[1] if len(a.split()) > 1 else a)
         outcomes[oc] = outcomes.get(oc, 0) + 1
-        if not fc.compare_read(summary, ma, a, ignore_usize=True):
+        cmp_ok = fc.compare_read(summary, ma, a, ignore_usize=True)
+        ma = ma if ma is not None else 'readfile outcome=no-model'
+        if not cmp_ok:
             # a memory error or hang the model does not predict is itself a disagreement
             dis += 1
             if dis <= 15:
-                res.violation('model-vs-implementation', 'readFile of a mutated file: model %s, implementation %s' % (ma[:40], a[:40]), {'file': f.hex()[:8000], 'mutation': k, 'model': ma[:600], 'impl': a[:600]})
+                res.violation('model-vs-implementation', 'readFile of a mutated file: model %s, implementation %s' % (ma[:40], a[:40]), {'file': f.hex(), 'mutation': k, 'model': ma[:600], 'impl': a[:600]})
         if oc not in ('ended', 'openexc'):
             md = fc.split_read(ma)[0].get('outcome')
             sig = classify_hostile(f, a, ma, k)
@@ -1953,7 +1989,7 @@ def check_C10(res):
     res.corr['rule'] = 'valid files (library-written and reference logs) mutated by boundary byte substitution, aligned 16/32-bit overwrites, truncation, block duplication/deletion and structure-aware edits of container/object headers and length fields; read through the real threaded File under ASan+UBSan with a 256 MiB allocation cap and a watchdog; every outcome other than ended/open-exception is a failure'
     res.corr['samples'] = [{'mutation': k, 'file_len': len(f), 'answer': a[:60]} for f, k, a in list(zip(files, kinds, r))[:4]]
     for sig, (f, k, a, ma) in fails.items():
-        res.violation('hostile-input', '%s: implementation %s (model %s)' % (sig, a[:60], ma[:60]), {'class': 'File', 'failure': sig, 'mutation': k, 'file': f.hex()[:12000]})
+        res.violation('hostile-input', '%s: implementation %s (model %s)' % (sig, a[:60], ma[:60]), {'class': 'File', 'failure': sig, 'mutation': k, 'file': f.hex()})
     finish_codec(res)
 
 
@@ -2192,6 +2228,11 @@ def sched_sessions(res, pipe, fexe, cexe, sexe, summary, exact, rng):
             ti = next(i for i, f in enumerate(g.cls['AppText']['fields']) if f['name'] == 'text')
             objs.append(('AppText', {ti: bytes(rng.randrange(32, 127) for _ in range(rng.choice([3, 50, 150])))}))
         cases.append(fc.Case(rng.choice([0, 1]), rng.choice([1, 7, 16, 64]) if k < nsess - 1 else 131072, k % 3 != 0, objs))
+    # more objects than the object queue holds (10): an early close finds the queue full and the parser asleep inside write()
+    nbig = len(cases)
+    for cs in ((64, 131072) if res.tier == 'quick' else (7, 64, 4096, 131072)):
+        cn = rng.choice(classes)
+        cases.append(fc.Case(rng.choice([0, 1]), cs, False, [(cn, {}) for _ in range(14)]))
     out = fc.run_cases(pipe, res, cases, fexe, cexe, want_model=False)
     if out is None:
         return None
@@ -2205,11 +2246,11 @@ def sched_sessions(res, pipe, fexe, cexe, sexe, summary, exact, rng):
         fhex = o['file'].hex()
         nobj = len(c.objs)
         # read sessions: complete, and early close after k objects for every k
-        for close in [-1] + list(range(0, nobj + 1)):
+        for close in ([-1] + list(range(0, nobj + 1)) if ci < nbig else [-1, 0, 1, 3, 12]):
             base = 'rsess file=%s close=%d' % (fhex, close)
             sessions.append({'kind': 'read', 'base': base, 'case': ci, 'close': close, 'small': len(o['file']) < 1500})
         wbase = 'wsess level=%d cs=%d rp=%d' % (c.level, c.cs, 1 if c.rp else 0)
-        for close in [-1] + list(range(0, nobj)):
+        for close in ([-1] + list(range(0, nobj)) if ci < nbig else [-1, 0, 5, 13]):
             sessions.append({'kind': 'write', 'base': wbase + ' close=%d' % close, 'tail': ' ' + c.tail(), 'case': ci, 'close': close, 'small': len(c.tail()) < 600})
     # baseline run of every session, then deviations / random / pct schedules
     def line(sx, extra):
